@@ -156,6 +156,9 @@ func (td *ContainerTypeDef) Deserialize(dr *codec.DecodingReader) (View, error) 
 			if uint64(offset) > scope {
 				return nil, fmt.Errorf("offset %d of field %d is too big for scope %d", offset, i, scope)
 			}
+			if len(offsets) == 0 && uint64(offset) != td.FixedPartSize {
+				return nil, fmt.Errorf("first offset %d of field %d does not match the fixed part size %d", offset, i, td.FixedPartSize)
+			}
 			prevOffset = offset
 			offsets = append(offsets, offsetField{index: i, offset: offset})
 		}
